@@ -28,7 +28,8 @@ SMALL = [1, 7, 8, 9]
 KINDS = [("bs", 64), ("bb", 8), ("bb", 16), ("bb", 32), ("bb", 64)]
 NPOS = 2**64 - 1
 
-RULE = ("widths {1,7,8,9,31,32,33,63,64,65,127,128,129} and 257 (count() beyond an 8-bit counter) x {etl::bitset, basic_bitset<uint8/16/32/64>}; "
+RULE = ("widths {1,7,8,9,31,32,33,63,64,65,127,128,129}, 257 (count() beyond an 8-bit counter) and 0 (every operation "
+        "once, string constructors, to_string) x {etl::bitset, basic_bitset<uint8/16/32/64>}; "
         "widths <= 9: every value x every single operation (whole-set, every position incl. the padding "
         "positions and one past the storage, proxy ops, queries) for etl::bitset and basic_bitset<uint8> (every 5th "
         "value for uint16/32/64 in the quick tier, all in thorough); width 7: every pair of values under &=,|=,^= "
@@ -49,7 +50,7 @@ TRUSTED_BASE = ["reference leg: libstdc++ 12 std::bitset<N> on the same history;
                 "operator[] outside the set, UB in std) are identified with the etl contract outcome; libstdc++ validates "
                 "only the first min(N, rlen) characters of a string, the harness applies [bitset.cons] to the rest",
                 "raw-storage comparison reads the object representation of the etl object (memcpy), little endian"]
-ASSUMPTIONS = ["LP64: size_t, unsigned long and unsigned long long are 64 bits", "widths >= 1 (bitset<0> is not modelled)"]
+ASSUMPTIONS = ["LP64: size_t, unsigned long and unsigned long long are 64 bits"]
 
 
 def nwords(bits, w):
@@ -374,6 +375,16 @@ def gen(tier, rng):
                 ops += ["int %d" % v]
             out.append(hist(kind, w, bits, ops))
             out.append(words(kind, w, bits, ops))
+    # --- Z. the width 0: every operation once, every positional member with several (all failing) positions
+    for kind, w in KINDS:
+        ops = ["sa", "fa", "not", "ra", "sw", "and", "or", "xor", "andf", "orf", "xorf", "ands", "ors", "xors",
+               "int 0", "int 5", "int %d" % (2**64 - 1), "sa", "sw"]
+        for p in (0, 1, 7, 8, 63, 64, 256):
+            ops += ["s %d 1" % p, "s %d 0" % p, "r %d" % p, "f %d" % p, "rs %d 1" % p, "rf %d" % p, "t %d" % p,
+                    "rc %d 0" % p, "rc 0 %d" % p, "rcs %d %d" % (p, p)]
+        out.append(hist(kind, w, 0, ops))
+        out.append(words(kind, w, 0, ops))
+    out += string_cases(rng, 0, quick)
     # --- D/E. string constructors and to_string
     for bits in WIDTHS:
         out += string_cases(rng, bits, quick)
@@ -397,7 +408,7 @@ def nontrivial(case, impl):
     if impl.startswith("unknown") or impl.startswith("crash"):
         return False
     if case.startswith("ct "):
-        return "0" not in impl
+        return impl.replace(" ", "") in ("1", "11")   # 0 = script failed, 2 = not a constant expression
     if case.startswith("wstr") or case.startswith("cistr"):
         return impl != "contract" and " 49" in impl
     if case.startswith("popfb"):
